@@ -167,7 +167,10 @@ func loadSchemaTypes(schema xsd.Schema, logger *logrus.Logger) TypeList {
 			default:
 			}
 		} else if t := findType(data, &types); t == nil {
-			types.Add(makeType(name, data, &types, logger))
+			t = makeType(name, data, &types, logger)
+			if findType(data, &types) == nil {
+				types.Add(t)
+			}
 		}
 	}
 
@@ -204,7 +207,10 @@ func makeComplexType(from *xsd.ComplexType, knownTypes *TypeList, logger *logrus
 		childType := findType(data, knownTypes)
 		if childType == nil {
 			childType = makeType(name, data, knownTypes, logger)
-			knownTypes.Add(childType)
+			// a complex type registers itself before its children are made (see below)
+			if findType(data, knownTypes) == nil {
+				knownTypes.Add(childType)
+			}
 		}
 		f := Field{
 			Name: name.Local,
@@ -235,6 +241,9 @@ func makeComplexType(from *xsd.ComplexType, knownTypes *TypeList, logger *logrus
 	item := &StandardType{
 		baseType: baseType{name: from.Name.Local},
 	}
+	// known before its children are made: a type that refers to itself, directly or through
+	// another type, is found instead of being made again without end
+	knownTypes.Add(item)
 
 	for _, child := range getAllElements(from) {
 		c := createChildItem(child.Name, child.Type, false, child.Optional, child.Plural)
@@ -244,7 +253,7 @@ func makeComplexType(from *xsd.ComplexType, knownTypes *TypeList, logger *logrus
 		item.Properties = append(item.Properties, c)
 	}
 
-	for _, child := range from.Attributes {
+	for _, child := range getAllAttributes(from) {
 		c := createChildItem(child.Name, child.Type, true, child.Optional, child.Plural)
 		if c.SizeSpec == nil {
 			c.SizeSpec = makeSizeSpecFromAttrs(child.Attr)
@@ -323,6 +332,19 @@ func makeXsdBuiltinType(from xsd.Builtin, knownTypes *TypeList) Type {
 	}
 	t, _ := knownTypes.Find(typeStr)
 	return t
+}
+
+// getAllAttributes collects the attributes of a type and of all its ancestors, like
+// getAllElements does for elements.
+func getAllAttributes(current xsd.Type) []xsd.Attribute {
+	concreteCurrent, ok := current.(*xsd.ComplexType)
+	if !ok || concreteCurrent == nil {
+		return nil
+	}
+	if concreteParent, pok := concreteCurrent.Base.(*xsd.ComplexType); pok && concreteCurrent.Base != xsd.AnyType {
+		return append(getAllAttributes(concreteParent), concreteCurrent.Attributes...)
+	}
+	return concreteCurrent.Attributes
 }
 
 /*
